@@ -48,6 +48,10 @@ CHECKS = {
    technique="TLA+ specs (DocRoute.tla = reader mechanism composed with docstring consumption; Admonition.tla = transliterated note-box rewriting) model-checked with TLC; generated unit bodies and comment bodies replayed into FORD's parser, AdmonitionPreprocessor and markdown conversion",
    text="TLC checks EachDocOnItsEntity / NoLeakToContainer for every sequence of <=2-3 documented entities x {simple, block} x 10 comment placements (after inline/own line, before, the two alternate block forms, combinations) x gaps x separators on the reader+parser mechanism model, and ErrorsReported / WordsPreservedInOrder / StartsBecomeNotes for every comment body of <=4-5 lines over 20 line shapes on the rewriting model. Every routing case is rendered as Fortran in 4 contexts (module variables/types/interfaces, module procedures, type components, dummy arguments) and 2 marker sets and parsed by the real FORD (each entity's doc_list must hold exactly its tracer words in order, nothing leaks to the container); every body is run through the real AdmonitionPreprocessor (output compared line by line with the model) and through MetaMarkdown (rendered words once, in order).",
    note="Bounded as stated; HTML-level placement of the rendered documentation on generated pages is covered by C05/C10 tracer checks, not here. Trusted: TLC, python-markdown, the renderers."),
+ "C14": dict(level="model_checking", ref="DESIGN.md 6/C14, 4.2",
+   technique="TLA+ spec (FixedForm.tla: layout generator + transliterated FortranLine/convertToFree composed with the reader mechanism; FixedForm_Trace.tla) model-checked with TLC; generated layouts read by FortranReader(fixed=True); recorded convertToFree executions validated by TLC; whole programs rendered in both forms and canonical trees compared",
+   text="TLC checks Equivalent (converter o reader yields the logical content) for every fixed-form layout within the bound (labels, five continuation characters, C/c/*/! comment lines and short/long blank lines between continued lines, inline comments and docs, sequence-field text; length limit on and off) on the converter without deviations, and shows each named deviation is caught. Each generated layout is read by the real FortranReader(fixed=True) and compared with the logical content; convertToFree input/output of the generated cases and of the repository's .f file is checked line by line against the converter model by TLC; a corpus of programs is rendered as free and as fixed form (seeded random breaks inside expressions and argument lists, labels, comment styles, columns 73+, wide lines with the limit off) and the canonical entity trees, docs and calls compared.",
+   note="Bounded: <=2 statements x <=3 tokens, feature budget 2-3 (quick replays a seeded eighth of the layouts). Tab-format and OpenMP sentinels not generated. Trusted: TLC, renderers, vlib/tree.py."),
 }
 
 NOT_YET = {}
